@@ -333,6 +333,10 @@ func (r *FnRun) execAlloc(st *State, a *ssa.Alloc) {
 		}
 		r.root.localAddrs = append(r.root.localAddrs, addr)
 		r.root.localSizes = append(r.root.localSizes, r.e.sizeof(elem))
+		// a new object does not lie inside the backing array of a slice that existed before the allocation
+		for _, kr := range r.root.knownRanges {
+			r.addFact(tb.Not(tb.ULt(tb.Sub(addr, kr[0]), kr[1])))
+		}
 		r.addFact(tb.ULt(addr, tb.BVU(64, 1<<47)))
 		r.objStore(st, addr, elem, r.e.zeroVal(elem))
 		r.vals[a] = PtrV{Kind: PObj, Addr: addr, T: elem}
